@@ -686,19 +686,45 @@ func (pm *Portmapper) handleRpcbSet(r io.Reader) []byte {
 		prot = IPPROTO_UDP
 	}
 
-	// Parse port from uaddr
-	if uaddr != "" {
-		var a, b, c, d, hi, lo int
-		if _, err := fmt.Sscanf(uaddr, "%d.%d.%d.%d.%d.%d", &a, &b, &c, &d, &hi, &lo); err == nil {
-			port = uint32(hi*256 + lo)
-		}
-	}
+	// Parse port from uaddr: the last two dot-separated fields are the high
+	// and low byte of the port, for IPv4 ("10.0.0.1.8.1") and IPv6
+	// ("::1.8.1") universal addresses alike (RFC 5665).
+	port = portFromUniversalAddr(uaddr)
 
 	if port > 0 {
 		pm.RegisterService(prog, vers, prot, port)
 	}
 
 	return pm.encodeBool(true)
+}
+
+// portFromUniversalAddr extracts the port from a universal address
+// ("host.port_hi.port_lo"). It returns 0 if the address does not end in two
+// decimal byte values.
+func portFromUniversalAddr(uaddr string) uint32 {
+	// field parses the decimal byte that ends at uaddr[end]
+	field := func(end int) (val, start int, ok bool) {
+		start = end
+		for start > 0 && uaddr[start-1] >= '0' && uaddr[start-1] <= '9' {
+			start--
+		}
+		if start == end || end-start > 3 {
+			return 0, 0, false
+		}
+		for _, c := range uaddr[start:end] {
+			val = val*10 + int(c-'0')
+		}
+		return val, start, val <= 255
+	}
+	lo, i, ok := field(len(uaddr))
+	if !ok || i == 0 || uaddr[i-1] != '.' {
+		return 0
+	}
+	hi, j, ok := field(i - 1)
+	if !ok || j == 0 || uaddr[j-1] != '.' {
+		return 0
+	}
+	return uint32(hi*256 + lo)
 }
 
 // handleRpcbUnset handles rpcbind v3/v4 UNSET procedure
